@@ -26,7 +26,8 @@
 
     Oracles (Section variables): [re_search] (compiled item).search(text),
     [excl_re] any(exclude_regex_paths).search(path text), [brepr] str(bytes),
-    [re_text] str(compiled item). *)
+    [re_text] str(compiled item), [str_attrs]/[bytes_attrs] the non-dunder names
+    of dir(str)/dir(bytes). *)
 From Coq Require Import List ZArith NArith Bool Arith String.
 Import ListNotations.
 From DD Require Import Base.Sx Base.PyStr Base.Value.
@@ -51,6 +52,8 @@ Inductive prep := PRaise | PItem (cs : bool) (it : eitem).
 Inductive event :=
 | EvValue (p : path) (v : value)     (* __report('matched_values', text p, v) *)
 | EvPath (p : path) (v : value)      (* __report('matched_paths', text p, v) *)
+| EvAttr (p : path) (name : pystr)   (* __report('matched_paths', text p ++ "." ++ name, <bound method>):
+                                        a str / bytes searched as a custom object (item None) *)
 | EvRaise.                           (* TypeError propagates out of the constructor *)
 
 Inductive result := RRaise | ROk (evs : list event).
@@ -76,6 +79,7 @@ Section Search.
   Variable re_search : pystr -> bool.     (* (compiled item).search(text) is a match *)
   Variable excl_re : pystr -> bool.       (* some exclude_regex_paths pattern .search(text) *)
   Variable re_text : pystr.               (* str(compiled item) *)
+  Variable str_attrs bytes_attrs : list pystr.   (* [n for n in dir(str / bytes) if not dunder] *)
   Variable c : config.
 
   (* str(x) *)
@@ -172,10 +176,30 @@ Section Search.
            | ERe true => [EvRaise]            (* bytes pattern .search(str(obj)) *)
            end.
 
-    (* __search_obj on None / on a str when the item is None: `obj == item`,
-       then the (non-dunder) attributes, which report nothing *)
+    (* the matched_paths test of __search_dict on the (case folded) text of the new path *)
+    Definition path_test (txt : pystr) (hit : list event) : list event :=
+      if (match_string c && pystr_eqb item_text txt)
+         || (negb (match_string c) && contains_sub item_text txt)
+      then hit
+      else match it with
+           | ERe false => if re_search txt then hit else []
+           | ERe true => [EvRaise]            (* bytes pattern .search(path text) *)
+           | EAtom _ => []
+           end.
+
+    (* __search_obj on None, and on a str / bytes when the item is None (the only
+       item for which a str reaches the last branch of __search): `obj == item`,
+       then __search_dict(print_as_attribute=True) over the non-dunder attributes;
+       each attribute is a builtin method / function, whose own search reports nothing *)
+    Definition attr_events (names : list pystr) (p : path) : list event :=
+      flat_map (fun n => path_test (fold_s (render p ++ [46%N] ++ n)%list) [EvAttr p n]) names.
     Definition search_obj_atom (a : atom) (p : path) : list event :=
-      if eq_item a then [EvValue p (VAtom a)] else [].
+      ((if eq_item a then [EvValue p (VAtom a)] else [])
+       ++ match a with
+          | AStr _ => attr_events str_attrs p
+          | ABytes _ => attr_events bytes_attrs p
+          | _ => []
+          end)%list.
 
     (* the elif chain of __search for an atom (after the skip test) *)
     Definition search_leaf (a : atom) (p : path) : list event :=
@@ -194,16 +218,7 @@ Section Search.
 
     (* the matched_paths test of __search_dict for the entry at p' *)
     Definition path_event (p' : path) (child : value) : list event :=
-      let txt := fold_s (render p') in
-      let hit := [EvPath p' child] in
-      if (match_string c && pystr_eqb item_text txt)
-         || (negb (match_string c) && contains_sub item_text txt)
-      then hit
-      else match it with
-           | ERe false => if re_search txt then hit else []
-           | ERe true => [EvRaise]
-           | EAtom _ => []
-           end.
+      path_test (fold_s (render p')) [EvPath p' child].
 
     (* thing_cased == item *)
     Definition thing_eq_item (x : value) : bool :=
@@ -260,13 +275,17 @@ Section Search.
   (* the result dictionaries: keyed by path TEXT; `d[key] = value` keeps the
      position of an existing key and replaces its value (verbose_level >= 2);
      SetOrdered.add keeps the first occurrence (verbose_level 1) *)
-  Fixpoint upsert (k : pystr) (v : value) (l : list (pystr * value)) : list (pystr * value) :=
+  Fixpoint upsert {V} (k : pystr) (v : V) (l : list (pystr * V)) : list (pystr * V) :=
     match l with
     | [] => [(k, v)]
     | (k', v') :: r => if pystr_eqb k k' then (k', v) :: r else (k', v') :: upsert k v r
     end.
   Definition matched_values (evs : list event) : list (pystr * value) :=
     fold_left (fun d e => match e with EvValue p v => upsert (render p) v d | _ => d end) evs [].
-  Definition matched_paths (evs : list event) : list (pystr * value) :=
-    fold_left (fun d e => match e with EvPath p v => upsert (render p) v d | _ => d end) evs [].
+  (* None stands for a bound builtin method (EvAttr) *)
+  Definition matched_paths (evs : list event) : list (pystr * option value) :=
+    fold_left (fun d e => match e with
+                          | EvPath p v => upsert (render p) (Some v) d
+                          | EvAttr p n => upsert (render p ++ [46%N] ++ n)%list None d
+                          | _ => d end) evs [].
 End Search.
